@@ -95,7 +95,6 @@ class Sched:
 
 def install(sched, log):
     import pyndl.preprocess as pp
-    real_mp = pp.multiprocessing
 
     class Result:
         def __init__(self, k):
@@ -231,13 +230,26 @@ def install(sched, log):
                     wake = all(j[4].done for j in self.jobs)
                 sched.handler_done(wake)
 
-    pp.multiprocessing = types.SimpleNamespace(Pool=Pool)
+    # replace whichever of these names the module uses (`import multiprocessing` or `from multiprocessing import
+    # Pool`, `import time` or `from time import sleep`): the import style is not behaviour
     real_sleep = time.sleep
-    pp.time = types.SimpleNamespace(sleep=lambda s: real_sleep(0.002 if sched.free_run else 0))
+    short_sleep = lambda s: real_sleep(0.002 if sched.free_run else 0)      # noqa: E731
+    saved = {}
+
+    def patch(name, value):
+        if hasattr(pp, name):
+            saved[name] = getattr(pp, name)
+            setattr(pp, name, value)
+    patch("multiprocessing", types.SimpleNamespace(Pool=Pool))
+    patch("Pool", Pool)
+    ns = types.SimpleNamespace(**{k: getattr(time, k) for k in dir(time) if not k.startswith("__")})
+    ns.sleep = short_sleep
+    patch("time", ns)
+    patch("sleep", short_sleep)
 
     def uninstall():
-        pp.multiprocessing = real_mp
-        pp.time = time
+        for name, value in saved.items():
+            setattr(pp, name, value)
     return uninstall
 
 
